@@ -30,7 +30,17 @@ if str(REPO / "src") not in sys.path:
 if str(VERIF / "harness") not in sys.path:
     sys.path.insert(0, str(VERIF / "harness"))
 
-logging.disable(logging.CRITICAL)  # the repo logs a lot; verdicts are what we compare
+# The repo logs a lot; verdicts are what we compare.  The logging LEVEL is part of the environment, though: the tools run at
+# INFO by default and at DEBUG with --debug, and `if logger.isEnabledFor(DEBUG)` branches must not change a verdict.  So the
+# checks run once with logging disabled and — `./check` does this as a second pass — once more with every logger at DEBUG
+# and records swallowed by a NullHandler (VERIF_LOGGING=debug).
+if os.environ.get("VERIF_LOGGING") == "debug":
+    logging.disable(logging.NOTSET)
+    logging.getLogger().setLevel(logging.DEBUG)
+    logging.getLogger().addHandler(logging.NullHandler())
+    logging.lastResort = None
+else:
+    logging.disable(logging.CRITICAL)
 
 EPOCH = datetime(1970, 1, 1, tzinfo=timezone.utc)
 US = timedelta(microseconds=1)
